@@ -18,6 +18,7 @@ import (
 
 	"verif/harness/ribx"
 	"verif/report"
+	"verif/rt"
 
 	spb "github.com/openconfig/gribi/v1/proto/service"
 )
@@ -261,40 +262,46 @@ func Run(rep *report.Report, tier string) {
 	}
 	outcomes := map[string]int{}
 	var mu sync.Mutex
-	var wg sync.WaitGroup
-	ch := make(chan job)
-	for w := 0; w < 16; w++ {
-		wg.Add(1)
-		go func() {
-			defer wg.Done()
-			for jb := range ch {
-				base := uint64(0)
-				if (jb.i+jb.j)%2 == 1 {
-					base = 1000
+	// both iteration orders of the maps the reconciler (and the RIB) walk: the order in which operations of one
+	// category are emitted, and with it the id each one gets, follows the map order
+	for _, order := range []int{0, 1} {
+		rt.MapOrder = order
+		var wg sync.WaitGroup
+		ch := make(chan job)
+		for w := 0; w < 16; w++ {
+			wg.Add(1)
+			go func() {
+				defer wg.Done()
+				for jb := range ch {
+					base := uint64(0)
+					if (jb.i+jb.j)%2 == 1 {
+						base = 1000
+					}
+					oc, fs := one(u, cat[jb.i], cat[jb.j], jb.tv, base)
+					mu.Lock()
+					outcomes[oc]++
+					mu.Unlock()
+					for _, f := range fs {
+						rep.Violate(f.sig, f.what, map[string]any{"intended": describe(u, cat[jb.i]), "target": describe(u, cat[jb.j]), "target_only_instance": tonly[jb.tv].name, "id_base": base, "map_order": []string{"ascending", "descending"}[order]})
+					}
 				}
-				oc, fs := one(u, cat[jb.i], cat[jb.j], jb.tv, base)
-				mu.Lock()
-				outcomes[oc]++
-				mu.Unlock()
-				for _, f := range fs {
-					rep.Violate(f.sig, f.what, map[string]any{"intended": describe(u, cat[jb.i]), "target": describe(u, cat[jb.j]), "target_only_instance": tonly[jb.tv].name, "id_base": base})
-				}
-			}
-		}()
+			}()
+		}
+		for _, jb := range jobs {
+			ch <- jb
+		}
+		close(ch)
+		wg.Wait()
 	}
-	for _, jb := range jobs {
-		ch <- jb
-	}
-	close(ch)
-	wg.Wait()
+	rt.MapOrder = 0
 	rep.Set("catalogue_states", len(cat))
-	rep.Set("evaluations", len(jobs))
-	rep.Set("distinct_nontrivial", len(jobs)-outcomes["equal/0-ops"])
+	rep.Set("evaluations", 2*len(jobs))
+	rep.Set("distinct_nontrivial", 2*len(jobs)-outcomes["equal/0-ops"])
 	rep.Set("states", len(cat))
-	rep.Set("transitions", len(jobs))
-	rep.Set("traces_validated_against_impl", len(jobs))
+	rep.Set("transitions", 2*len(jobs))
+	rep.Set("traces_validated_against_impl", 2*len(jobs))
 	rep.Set("exhaustive", true)
-	rep.Set("rule", "catalogue = every reference-closed choice of one payload variant (or absence) per key of the universe; cases = ordered pairs of catalogue states x variants of a target-only network instance; trivial = equal pair without target-only entries")
+	rep.Set("rule", "catalogue = every reference-closed choice of one payload variant (or absence) per key of the universe; cases = ordered pairs of catalogue states x variants of a target-only network instance x 2 map iteration orders; trivial = equal pair without target-only entries")
 	keys := make([]string, 0, len(outcomes))
 	for k := range outcomes {
 		keys = append(keys, k)
